@@ -21,7 +21,7 @@ BOUNDS = {
     "c16_policy_roots_replay": "4105 policies: 10 leaves (trivial, unsatisfiable, after/older at and just past the environment's lock times, sha256 and key with and without preimage/signature), all and/or/threshold(1,2) nodes over pairs, single-child thresholds, a sample of 3-child thresholds with k = 0..3, and a sample of depth-2 combinations; one environment",
     "c16_policy_sort_replay": "all policies of nesting depth <= 2 over After(1..3) leaves (and/or/threshold incl. single-child and shared-Arc children): canonical, idempotent, and equal to the sorted form of the mirrored policy",
     "c14_jet_names_replay": "EXHAUSTIVE over the three jet tables (368 + 471 + 428 jets): Display then FromStr returns the jet, names are unique per family; every Core jet has an Elements namesake with the same source / target type and code '0' + the Core code",
-    "c05_machine_semantics_replay": "programs over word/iden/unit/witness leaves (+ the eq_8 jet): every combinator to depth 2, composed pairwise (comp), under a word-selected case, shifted to an unaligned offset; disconnect with three left-branch shapes (incl. one returning the right branch's root); assertl/assertr and case-against-fail with the visible and the hidden side selected (expected failures); 2073 executions (incl. side-by-side compositions whose intermediate frames are reused), up to 6 input values each; debug assertions on",
+    "c05_machine_semantics_replay": "programs over word/iden/unit/witness leaves (+ the eq_8 jet): every combinator to depth 2, composed pairwise (comp), under a word-selected case, shifted to an unaligned offset; disconnect with three left-branch shapes (incl. one returning the right branch's root); assertl/assertr and case-against-fail with the visible and the hidden side selected (expected failures); 2397 executions (incl. side-by-side compositions whose intermediate frames are reused, also fed with two concrete words so that cursors move), up to 6 input values each; debug assertions on",
     "c05_jet_semantics_replay": "22 families of arithmetic / logic / comparison jets at 8, 16, 32 and 64 bits, in the Core and in the Elements family (2 x 88 jets), on edge and pseudo-random operands (equal operands included), 7344 executions, against integer arithmetic",
     "c13_natural_replay": "numbers 1..=70000 and 2^p-2..2^p+2 for p <= 31 (encode, decode, bound); every 24-bit string (decode, re-encode)",
     "c18_dag_replay": "comp/pair DAGs of depth <= 3 over unit with every reuse/copy choice among the first 6 sub-DAGs per level, as commitment-time programs",
